@@ -18,7 +18,7 @@ from vlib import rawgraph, tally_ref as T, topogen
 PROPERTY = 'C11'
 LEVEL = 'exploration'
 SHARDS = {'quick': 4, 'thorough': 16}
-TIME_BUDGET = {'quick': 45, 'thorough': 780}
+TIME_BUDGET = {"quick": 50, 'thorough': 780}
 MIRROR_KEY = 'C11/mirror-exemption-removes-other-services-site'
 RULE = ('random valid slices: 1-5 nodes (VM/Server/Container/NAS, with/without/partial capacities) over 1-3 sites, 0-4 components '
         'per node over every component model discovered at run time, 0-2 switches, 0-2 facilities (also at sites no node uses), '
@@ -99,7 +99,7 @@ def gen_script(rng, vocab, force_model=None):
     used_sites = rng.sample(SITES[:4], rng.choice([1, 1, 2, 2, 3]))
     mode = rng.choice(['mirror', 'mirror', 'ext', 'mixed', 'mixed', 'plain'])
     nodes, ports = [], []          # ports: (ref, owner, site, itype)
-    nn = rng.randint(1, 5)
+    nn = rng.choice([1, 2, 2, 3, 3, 4, 5])
     for i in range(nn):
         site = used_sites[i] if i < len(used_sites) else rng.choice(used_sites)
         ntype = rng.choice(['VM'] * 7 + ['Server', 'Container', 'NAS'])
@@ -112,7 +112,7 @@ def gen_script(rng, vocab, force_model=None):
             caps = None
         comps = []
         if ntype != 'NAS':
-            for j in range(rng.choice([0, 1, 2, 2, 3, 4])):
+            for j in range(rng.choice([0, 1, 1, 2, 2, 3, 4] if nn < 4 else [0, 1, 1, 2])):
                 model = rng.choice(nic) if rng.random() < 0.6 else rng.choice(models)
                 if force_model and i == 0 and j == 0:
                     model = force_model
@@ -354,6 +354,18 @@ SUBJECT_ACTION_PIN = {'ACTION_ID': 'attribute-category:action', 'SUBJECT_ID': 's
                       'RESOURCE_SUBJECT': 'attribute-category:resource', 'RESOURCE_PROJECT': 'attribute-category:resource'}
 
 
+class Lazy:
+    """The stored order of the services is only needed to attribute a mismatch (listing them is expensive)."""
+
+    def __init__(self, f):
+        self.f, self.v = f, None
+
+    def __call__(self):
+        if self.v is None:
+            self.v = self.f()
+        return self.v
+
+
 def judge_tally(ctx, script, vocab, ids, attrs, stored, wit):
     exp = T.authz(script, vocab)
     ctx.count('clause:tally')
@@ -373,10 +385,10 @@ def judge_tally(ctx, script, vocab, ids, attrs, stored, wit):
             continue
         ok = False
         w = dict(wit, attribute=aid, expected=e, observed=obs)
-        if short == 'mirrorsite' and sorted(set(obs)) == T.pop_simulation(script, stored):
+        if short == 'mirrorsite' and sorted(set(obs)) == T.pop_simulation(script, stored()):
             ctx.violation(MIRROR_KEY, 'the mirror-site attribute names the site of every PortMirror service whose mirrored port is '
                           'outside the slice (an in-slice mirror removed the site another service had put on the list)',
-                          dict(w, stored_service_order=stored))
+                          dict(w, stored_service_order=stored()))
             continue
         missing = [x for x in e if e.count(x) > obs.count(x)] if short not in T.SET_ATTRS else sorted(set(e) - set(obs), key=repr)
         kind = 'missing' if missing else 'extra'
@@ -534,7 +546,9 @@ def one_case(ctx, script, orders, vocab, ids, count_shapes=True):
                 return False
             continue
         ctx.count('builds')
-        stored = list(topo.network_services.keys())
+        stored = Lazy(lambda topo=topo: list(topo.network_services.keys()))
+        if k == 0 and any(s['nstype'] == 'PortMirror' for s in script['services']):
+            stored()        # the first topology is gone when a later order is compared with it
         try:
             attrs, req, req2 = observe_authz(topo)
         except Exception as e:
@@ -542,11 +556,12 @@ def one_case(ctx, script, orders, vocab, ids, count_shapes=True):
             continue
         judge_tally(ctx, script, vocab, ids, attrs, stored, wit)
         judge_pdp(ctx, ids, attrs, req, req2, wit)
-        try:
-            obs, text = observe_log(topo)
-            judge_accounting(ctx, script, vocab, obs, text, wit, 'topology')
-        except Exception as e:
-            ctx.violation('C11/accounting-raises', f'LogCollector raised {type(e).__name__}: {str(e)[:120]}', wit)
+        if k < 2 or not ctx.quick:
+            try:
+                obs, text = observe_log(topo)
+                judge_accounting(ctx, script, vocab, obs, text, wit, 'topology')
+            except Exception as e:
+                ctx.violation('C11/accounting-raises', f'LogCollector raised {type(e).__name__}: {str(e)[:120]}', wit)
         cur = norm(attrs)
         if k == 0:
             base = (cur, stored)
@@ -560,7 +575,7 @@ def one_case(ctx, script, orders, vocab, ids, count_shapes=True):
                     ctx.violation(f'C11/topology-vs-serialized:{short}',
                                   'collecting from the topology and from its serialized model gives the same attributes',
                                   dict(wit, attribute=aid, from_topology=cur.get(aid), from_serialized=norm(a2).get(aid)))
-                obs2, text2 = observe_log(asm_of(topo))
+                obs2, text2 = observe_log(asm)
                 judge_accounting(ctx, script, vocab, obs2, text2, wit, 'serialized')
             except Exception as e:
                 ctx.violation('C11/serialized-collect-raises',
@@ -570,9 +585,9 @@ def one_case(ctx, script, orders, vocab, ids, count_shapes=True):
             for aid in diff_keys(base[0], cur):
                 short = aid.rsplit(':', 1)[-1]
                 w = dict(wit, attribute=aid, first_order=base[0].get(aid), this_order=cur.get(aid),
-                         stored_first=base[1], stored_this=stored)
-                if aid == ids['mirrorsite'] and (explained_by_pop(script, vocab, ids, base[0].get(aid, []), base[1]) or
-                                                 explained_by_pop(script, vocab, ids, cur.get(aid, []), stored)):
+                         stored_first=base[1](), stored_this=stored())
+                if aid == ids['mirrorsite'] and (explained_by_pop(script, vocab, ids, base[0].get(aid, []), base[1]()) or
+                                                 explained_by_pop(script, vocab, ids, cur.get(aid, []), stored())):
                     ctx.violation(MIRROR_KEY, 'two creation orders of the same slice give the same mirror-site attribute', w)
                 else:
                     ctx.violation(f'C11/order-dependent:{short}', 'two creation orders of the same slice give the same attributes', w)
@@ -594,7 +609,7 @@ def run(ctx):
     if problems:
         return
     rng = ctx.rng
-    n = ctx.pick(75, 1500)
+    n = ctx.pick(25, 1500)
     k = ctx.pick(4, 8)
     models = sorted(vocab['models'])
     for i in range(n):
